@@ -156,11 +156,70 @@ def r_allocpath(prog, R):
             r.viol("%s goes through the function pointer" % g, g, f.loc(f.ln), "%s no longer calls the replaceable allocator hook" % g)
 
 
+ALLOCOUT_OK = {
+    "ares_buf_split_str": "ares_array_finish returns NULL for an empty array, which is the documented result for no elements; it cannot fail otherwise",
+    "ares_dns_write": "after a successful ares_dns_write_buf the buffer holds at least the 12 byte header, for which ares_buf_finish_bin does not allocate",
+    "ares_uri_write": "after a successful ares_uri_write_buf the buffer holds at least the scheme, for which ares_buf_finish_str does not allocate",
+}
+
+
+def r_allocout(prog, R):
+    import own
+    r = R.rule("R-C14-ALLOCOUT", "the result of an allocating call handed out through an out-parameter is tested before the function can report success", floor=12, analysis="A-WMC on allocator results + guard presence")
+    alloc = set(own.BASE_ALLOC) | {"ares_buf_finish_str", "ares_buf_finish_bin", "ares_array_finish", "ares_strdup", "ares_buf_create", "ares_llist_create",
+                                   "ares_malloc_zero", "ares_malloc", "ares_array_create", "ares_dns_multistring_create", "ares_slist_create", "ares_htable_create"}
+    for f in sorted(prog.funcs.values(), key=lambda x: x.key):
+        if (f.retw or f.ret) != "ares_status_t":
+            continue
+        pn = {p["n"] for p in f.params if p["ty"].count("*") >= 2}
+        for b, i, el in f.elements():
+            if el["k"] != "asg" or el["e"]["op"] != "=":
+                continue
+            l = strip(el["e"]["l"])
+            if not (l is not None and l.get("k") == "un" and l["op"] == "*" and is_var(strip(l["e"])) and strip(l["e"])["n"] in pn):
+                continue
+            rr = strip(el["e"].get("r"))
+            if rr is None or rr.get("k") != "call":
+                continue
+            cn = rr
+            if cn.get("ref"):
+                x = f.call_by_id(cn["id"])
+                cn = x[2] if x else cn
+            if cn.get("callee") not in alloc:
+                continue
+            out = strip(l["e"])["n"]
+            k = "fn=%s *%s = %s() tested" % (f.name, out, cn["callee"])
+            # a NULL test of *out on some path after the store, leading to a failure status
+            tested = False
+            reachable = {b.id}
+            work = [b.id]
+            while work:
+                x = work.pop()
+                for s2 in f.blocks[x].succs:
+                    if s2 is not None and s2 not in reachable:
+                        reachable.add(s2)
+                        work.append(s2)
+            for b2 in f.blocks.values():
+                if b2.term and b2.term.get("cond") is not None and b2.id in reachable:
+                    for c3, p3 in atoms(b2.term["cond"], True) + atoms(b2.term["cond"], False):
+                        op, l3, r3 = norm_cmp(c3, p3)
+                        l4 = strip(l3)
+                        if l4 is not None and l4.get("k") == "un" and l4["op"] == "*" and is_var(strip(l4["e"]), out):
+                            tested = True
+            if tested:
+                r.ok(k, f.loc(el))
+            elif f.name in ALLOCOUT_OK:
+                r.ok(k + " (exempt: %s)" % ALLOCOUT_OK[f.name][:60], f.loc(el), nontrivial=False)
+            else:
+                r.viol(k, f.name, f.loc(el), "%s stores the result of %s() in *%s and can return without ever testing it: when that allocation fails the caller is told the call succeeded and receives NULL" % (f.name, cn["callee"], out))
+
+
 def run(prog, R, tier):
     R.assume("a store into a struct field transfers ownership iff the library releases objects through that field somewhere (inferred), plus 9 container link fields")
     files = None if tier == "thorough" else ANCHORED
     ownrules.own_rule(prog, R, "R-C14-OWN", files, floor=40 if files else 120, include_contract=True)
     r_prealloc(prog, R)
     r_allocpath(prog, R)
+    r_allocout(prog, R)
     E = effects.Effects(prog)
     C01.r_once(prog, R, E, rid="R-C14-ONCE")
